@@ -2,6 +2,7 @@
 From Coq Require Import List Arith Bool Lia.
 From StgV Require Import Model.StackSpec Model.LocatorSpec Proofs.CharsProofs Proofs.NameProofs Proofs.LocatorProofs
   Proofs.ChainBasics Proofs.ChainTxn Proofs.ChainExec Proofs.ChainStep.
+From StgV Require Proofs.WfCmd.
 Import ListNotations.
 Local Open Scope nat_scope.
 
@@ -531,16 +532,24 @@ Qed.
 Lemma bp_refresh : forall w b so s,
   Inv w -> CInv w -> w_stack w = Some so -> state_of (w_objs w) so = Some s ->
   s_head s = w_branch w -> stack_base (w_objs w) (w_branch w) s = Some b ->
-  base_of (fst (run_refresh w)) = Some b.
+  forall p, base_of (fst (run_refresh w p)) = Some b.
 Proof.
-  intros w b so s Hinv Hc Hso Hs Hhead Hb.
+  intros w b so s Hinv Hc Hso Hs Hhead Hb p.
   pose proof (bp_w w b so s Hso Hs Hb) as Bw.
-  unfold run_refresh. destruct (open_stack PAllow w) as [op|] eqn:Eop; [|exact Bw].
+  unfold run_refresh.
+  destruct (match p with
+            | Some o => match parse_locator o with Some l => Some (Some l) | None => None end
+            | None => Some None end) as [loc_l|] eqn:Ep; [|exact Bw].
+  pose proof (WfCmd.refresh_loc_wf p loc_l Ep) as Hwf. clear Ep.
+  destruct (open_stack PAllow w) as [op|] eqn:Eop; [|exact Bw].
   destruct (open_stack_ok _ _ _ Eop Hinv Hc) as (Hok & _ & _).
   pose proof (bp_open w b so s Hso Hs Hb PAllow op Eop ltac:(discriminate)) as Bop.
   cbv zeta. set (s1 := op_state op) in *.
   destruct (negb (head_top_ok op)); [exact Bop|].
-  destruct (last_error (s_applied s1)) as [pn|] eqn:El; [|exact Bop].
+  match goal with |- base_of (fst (rres_bind _ ?r _)) = _ => destruct r as [pn| |] eqn:Epn end;
+    [|exact Bop|exact Bop].
+  cbn [rres_bind].
+  pose proof (WfCmd.refresh_target_in s1 loc_l pn Hwf Epn) as Hpn.
   destruct (w_unmerged (op_world op)); [exact Bop|].
   unfold put. set (tmpc := length (w_objs (op_world op))).
   set (c := plain _ _ _ _). set (objs1 := w_objs (op_world op) ++ [c]).
@@ -568,7 +577,6 @@ Proof.
   destruct (open_stack PAllow w2) as [op2|] eqn:Eop2; [|exact B2].
   assert (Hcg : cur_good w2). { intros s' Hs'. rewrite Hcur in Hs'. now injection Hs' as <-. }
   destruct (open_stack_cur _ _ _ s2 Eop2 ltac:(discriminate) Hcur) as (Es2 & _).
-  apply last_error_split in El as [l El].
   assert (Hst2 : exists so2, w_stack w2 = Some so2 /\ state_of (w_objs w2) so2 = Some s2).
   { unfold cur_state in Hcur. destruct (w_stack w2) as [so2|]; [|discriminate]. now exists so2. }
   destruct Hst2 as (so2 & Hso2 & Hs2).
@@ -577,9 +585,9 @@ Proof.
   eapply (transact_base_gen w2 PAllow op2);
     [exact Eop2|discriminate|exact Hcg|exact C2|exact Hso2|exact Hs2|exact Hhead2|exact Hb2|reflexivity|].
   intros t0 H0 Hh0 E0.
-  apply (refresh_second_rinv _ tmpname pn l); [exact H0|exact Hh0| |].
-  - subst t0. cbn [begin_txn t_applied]. rewrite Es2, Ha2. cbn [op1 op_state]. fold s1. now rewrite El.
-  - intros ->. apply Hfresh. unfold all_of. apply in_or_app. left. rewrite El. apply in_or_app. right. now left.
+  apply (refresh_absorb_rinv _ tmpname pn (s_applied s1)); [exact H0|exact Hh0| |].
+  - subst t0. cbn [begin_txn t_applied]. rewrite Es2, Ha2. reflexivity.
+  - intros ->. apply Hfresh. unfold all_of. rewrite app_assoc. apply in_or_app. now left.
 Qed.
 
 (* ---------------------------------------------------------------- the theorem *)
@@ -604,7 +612,7 @@ Proof.
   pose proof (bp_txo w b so s Hinv Hc Hso Hs Hh Hb) as G4.
   destruct c; try discriminate; cbn [step].
   - apply (g_new w BP); assumption.
-  - exact (bp_refresh w b so s Hinv Hc Hso Hs Hh Hb).
+  - exact (bp_refresh w b so s Hinv Hc Hso Hs Hh Hb patch).
   - apply (g_push w BP); assumption.
   - apply (g_pop w BP); assumption.
   - apply (g_goto w BP); assumption.
